@@ -1,8 +1,545 @@
 """Named predicates over stored cases: the narrow regions of recorded known findings.
 
-A violation is attributed to a known finding only if its bucket matches the finding's bucket
-pattern AND the finding's region predicate holds on the case (structural scan).
+A violation is attributed to a known finding only if its bucket matches the finding's bucket pattern AND the finding's
+region predicate holds on the case.  Predicates are structural scans of the stored model/program (so that a structure
+emerging unplanted in C03/C04/C09 is recognised too) or, for two cross-cutting families, *semantic* re-executions
+(the violation vanishes when overridable initializer-inputs keep their defaults; a single rewrite-rule unit applied
+alone reproduces an already recorded C05 finding).
 """
 from __future__ import annotations
 
-REGIONS = {}
+import functools
+import json
+import os
+import re
+
+import numpy as np
+import onnx
+from onnx import numpy_helper
+
+HOME = os.environ.get("VERIF_HOME") or os.path.dirname(os.path.dirname(os.path.abspath(__file__)))
+
+
+# ----------------------------------------------------------------------------- model scans
+@functools.lru_cache(maxsize=64)
+def _model(b64):
+    from vf import optcommon
+
+    return optcommon.model_from_json(b64)
+
+
+def M(case):
+    return _model(case["model"])
+
+
+def opset(m, domain=""):
+    for o in m.opset_import:
+        if (o.domain or "") == domain:
+            return o.version
+    return None
+
+
+def all_nodes(m):
+    out = []
+
+    def walk(g):
+        for n in g.node:
+            out.append((g, n))
+            for a in n.attribute:
+                if a.type == onnx.AttributeProto.GRAPH:
+                    walk(a.g)
+                for sg in a.graphs:
+                    walk(sg)
+
+    walk(m.graph)
+    return out
+
+
+def nodes(m, *ops):
+    return [n for _, n in all_nodes(m) if n.op_type in ops]
+
+
+def attr(n, name, default=None):
+    for a in n.attribute:
+        if a.name == name:
+            return onnx.helper.get_attribute_value(a)
+    return default
+
+
+def consts(m):
+    """name -> numpy array for initializers and Constant nodes of every graph."""
+    out = {}
+
+    def walk(g):
+        for i in g.initializer:
+            try:
+                out[i.name] = numpy_helper.to_array(i)
+            except Exception:  # noqa: BLE001
+                pass
+        for n in g.node:
+            if n.op_type == "Constant" and n.output:
+                for a in n.attribute:
+                    try:
+                        if a.name == "value":
+                            out[n.output[0]] = numpy_helper.to_array(a.t)
+                        elif a.name == "value_float":
+                            out[n.output[0]] = np.asarray(a.f, dtype=np.float32)
+                        elif a.name == "value_int":
+                            out[n.output[0]] = np.asarray(a.i, dtype=np.int64)
+                        elif a.name == "value_ints":
+                            out[n.output[0]] = np.asarray(list(a.ints), dtype=np.int64)
+                        elif a.name == "value_floats":
+                            out[n.output[0]] = np.asarray(list(a.floats), dtype=np.float32)
+                    except Exception:  # noqa: BLE001
+                        pass
+            for a in n.attribute:
+                if a.type == onnx.AttributeProto.GRAPH:
+                    walk(a.g)
+
+    walk(m.graph)
+    return out
+
+
+def overridable(m):
+    ins = {i.name for i in m.graph.input}
+    return {i.name for i in m.graph.initializer if i.name in ins}
+
+
+def producers(m):
+    return {o: n for _, n in all_nodes(m) for o in n.output}
+
+
+@functools.lru_cache(maxsize=64)
+def _shapes(b64):
+    m = _model(b64)
+    out = {}
+    try:
+        mi = onnx.shape_inference.infer_shapes(m)
+    except Exception:  # noqa: BLE001
+        mi = m
+    for vi in list(mi.graph.value_info) + list(mi.graph.input) + list(mi.graph.output):
+        if vi.type.HasField("tensor_type") and vi.type.tensor_type.HasField("shape"):
+            out[vi.name] = [d.dim_value if d.HasField("dim_value") else (d.dim_param or None) for d in vi.type.tensor_type.shape.dim]
+    for k, v in consts(m).items():
+        out.setdefault(k, list(v.shape))
+    return out
+
+
+def shapes(case):
+    return _shapes(case["model"])
+
+
+def rule_of(case):
+    return case.get("rule", "")
+
+
+# ----------------------------------------------------------------------------- semantic family: overridable initializer-inputs
+def vanishes_with_default_initializers(case):
+    """The rule fired on a model with initializer-inputs and the violation disappears when those keep their defaults."""
+    m = M(case)
+    ov = overridable(m)
+    if not ov or "rule" not in case:
+        return False
+    from vf import optcommon
+    from vf.props import C05
+
+    feeds = [optcommon.feeds_from_json(f) for f in case.get("feeds", [])]
+    if not any(k in f for f in feeds for k in ov):
+        return False
+    stripped = [{k: v for k, v in f.items() if k not in ov} for f in feeds]
+    verdicts, _ = C05.check(m, case["rule"], stripped, case.get("commute", False))
+    return not verdicts
+
+
+# ----------------------------------------------------------------------------- structural regions per rule (C05)
+def _near_literal(m, op, lit):
+    """op node with a single-element constant operand close to, but not exactly, the literal (pattern tolerance rel 1e-5 / abs 1e-8)."""
+    c = consts(m)
+    for n in nodes(m, op):
+        for x in n.input:
+            v = c.get(x)
+            if v is not None and v.size == 1 and v.dtype.kind == "f":
+                f = float(v.reshape(()))
+                if f != lit and abs(f - lit) <= max(1e-5 * max(abs(f), abs(lit)), 1e-8):
+                    return True
+    return False
+
+
+def _size1_rank_ge1_const_operand(m, ops):
+    c = consts(m)
+    for n in nodes(m, *ops):
+        for x in n.input[1:]:
+            v = c.get(x)
+            if v is not None and v.size == 1 and v.ndim >= 1:
+                return True
+    return False
+
+
+def _clip_bounds(n, c):
+    lo = c.get(n.input[1]) if len(n.input) > 1 and n.input[1] else None
+    hi = c.get(n.input[2]) if len(n.input) > 2 and n.input[2] else None
+    return (None if lo is None else float(np.asarray(lo).reshape(-1)[0])), (None if hi is None else float(np.asarray(hi).reshape(-1)[0]))
+
+
+def _clip_chain_order_matters(m):
+    """Clip(Clip(x, lo1, hi1), lo2, hi2) whose intervals are disjoint or inverted (max-of-lows/min-of-highs is then wrong)."""
+    c = consts(m)
+    prod = producers(m)
+    for n in nodes(m, "Clip"):
+        p = prod.get(n.input[0]) if n.input else None
+        if p is None or p.op_type != "Clip":
+            continue
+        lo1, hi1 = _clip_bounds(p, c)
+        lo2, hi2 = _clip_bounds(n, c)
+        inf = float("inf")
+        a, b, cc, d = (lo1 if lo1 is not None else -inf), (hi1 if hi1 is not None else inf), (lo2 if lo2 is not None else -inf), (hi2 if hi2 is not None else inf)
+        if a > b or cc > d or b < cc or d < a:
+            return True
+    return False
+
+
+def _old_clip_attr_form(m):
+    return (opset(m) or 99) < 11 and bool(nodes(m, "Clip"))
+
+
+def _cast_cos(m):
+    """(to, value array) of Cast(ConstantOfShape(...)) chains."""
+    prod = producers(m)
+    out = []
+    for n in nodes(m, "Cast"):
+        p = prod.get(n.input[0]) if n.input else None
+        if p is not None and p.op_type == "ConstantOfShape":
+            v = attr(p, "value")
+            out.append((attr(n, "to"), None if v is None else numpy_helper.to_array(v)))
+    return out
+
+
+def _int_range(to):
+    np_t = {2: np.uint8, 3: np.int8, 4: np.uint16, 5: np.int16, 6: np.int32, 7: np.int64, 12: np.uint32, 13: np.uint64}.get(to)
+    if np_t is None:
+        return None
+    ii = np.iinfo(np_t)
+    return ii.min, ii.max
+
+
+def _cast_cos_int_wrap(m):
+    for to, v in _cast_cos(m):
+        r = _int_range(to)
+        if r and v is not None and v.size and v.dtype.kind in "iu":
+            x = int(v.reshape(-1)[0])
+            if x < r[0] or x > r[1]:
+                return True
+    return False
+
+
+def _twin_flatten(m):
+    seen = {}
+    for n in nodes(m, "Flatten"):
+        seen[n.input[0]] = seen.get(n.input[0], 0) + 1
+    return any(v >= 2 for v in seen.values())
+
+
+def _flatten_zero_size(case):
+    sh = shapes(case)
+    for n in nodes(M(case), "Flatten"):
+        s = sh.get(n.input[0])
+        if s and any(d == 0 for d in s):
+            return True
+    return False
+
+
+def _slice_last_dim_odd(case):
+    sh = shapes(case)
+    for n in nodes(M(case), "Slice"):
+        s = sh.get(n.input[0])
+        if s and isinstance(s[-1], int) and s[-1] % 2 == 1:
+            return True
+    return False
+
+
+def _add_of_matmul_addend_not_gemm_compatible(case):
+    """Add(MatMul(a, b), c) where c has rank > 2 or would have to broadcast the MatMul result up."""
+    m = M(case)
+    sh = shapes(case)
+    prod = producers(m)
+    for n in nodes(m, "Add"):
+        for i in (0, 1):
+            p = prod.get(n.input[i])
+            if p is not None and p.op_type == "MatMul":
+                mm = sh.get(n.input[i])
+                c = sh.get(n.input[1 - i])
+                if c is None:
+                    continue
+                if len(c) > 2:
+                    return True
+                if mm and len(mm) == 2:
+                    pad = [1] * (2 - len(c)) + list(c)
+                    # c must broadcast *into* [M, N]: each dim 1 or provably equal (a symbolic or larger dim may broadcast the product up)
+                    if any(not (x == 1 or x == y) for x, y in zip(pad, mm)):
+                        return True
+    return False
+
+
+def _gemm_trans_or_rank(case):
+    m = M(case)
+    sh = shapes(case)
+    prod = producers(m)
+    for n in nodes(m, "Gemm"):
+        if attr(n, "transA", 0) or attr(n, "transB", 0):
+            return True
+        p = prod.get(n.input[0])
+        if p is not None and p.op_type == "Reshape":
+            s = sh.get(p.input[0])
+            if s is not None and len(s) != 2:
+                return True
+    return False
+
+
+def _reshape_feeding_matmul_changes_matrix_dims(case):
+    """Reshape(MatMul(Reshape(a, sa), [Reshape](b, sb)), sc): an input reshape that is not a pure merge/split of batch dims."""
+    m = M(case)
+    sh = shapes(case)
+    prod = producers(m)
+    for n in nodes(m, "MatMul"):
+        for pos, x in enumerate(n.input):
+            p = prod.get(x)
+            if p is not None and p.op_type == "Reshape":
+                src, dst = sh.get(p.input[0]), sh.get(x)
+                if src is None or dst is None:
+                    return True
+                k = 1 if (len(src) == 1 or len(dst) == 1) else 2
+                if list(src[-k:]) != list(dst[-k:]) or len(src) == 1 or len(dst) == 1:
+                    return True
+    return False
+
+
+def _bn_gemm_beta_or_types(case):
+    m = M(case)
+    c = consts(m)
+    for n in nodes(m, "Gemm"):
+        if attr(n, "beta", 1.0) != 1.0:
+            return True
+    for n in nodes(m, "BatchNormalization"):
+        dts = {c[x].dtype for x in n.input[1:] if x in c}
+        g = [c[x].dtype for gn in nodes(m, "Gemm") for x in gn.input[1:] if x in c]
+        if dts and g and (len(dts | set(g)) > 1):
+            return True
+        if any(d == np.float64 for d in dts) and attr(n, "epsilon") is None:
+            return True  # python 1e-5 vs float32(1e-5) default epsilon in float64
+    return False
+
+
+def _hardswish(case):
+    m = M(case)
+    c = consts(m)
+    if (opset(m) or 99) < 14:
+        return True
+    sh = shapes(case)
+    for n in nodes(m, "Add", "Mul", "Div", "Clip", "HardSigmoid"):
+        for x in n.input:
+            v = c.get(x)
+            if v is not None and v.size == 1:
+                if v.ndim >= 1:
+                    return True  # singleton constants of higher rank change the output rank
+                if v.dtype.kind in "iu":
+                    return True  # integer tensors fused into HardSigmoid/HardSwish
+                if v.dtype == np.float64:
+                    return True  # float64: constants within tolerance / float32 alpha
+    for vi in m.graph.input:
+        if vi.type.tensor_type.elem_type in (6, 7, 11):
+            return True  # integer tensors; float64 (HardSwish uses float32(1/6), constants match within 1e-4)
+    for v in c.values():
+        if v.size == 1 and v.dtype.kind == "f":
+            f = float(v.reshape(-1)[0])
+            for k in (3.0, 6.0, 1.0 / 6.0, 0.5):
+                if f != k and f != float(np.float32(k)) and abs(f - k) <= 2e-4 * k:
+                    return True  # constant only approximately the pattern literal (rtol 1e-4)
+    for n in nodes(m, "HardSigmoid"):
+        a = attr(n, "alpha", 0.2)
+        if a != float(np.float32(1.0 / 6.0)):
+            return True  # alpha only approximately 1/6
+    return False
+
+
+def _convinteger_nonzero_x_zero_point(m):
+    c = consts(m)
+    for n in nodes(m, "ConvInteger"):
+        if len(n.input) > 2 and n.input[2]:
+            v = c.get(n.input[2])
+            if v is None or np.any(v != 0):
+                return True
+    return False
+
+
+def _same_autopad_with_dilation(m):
+    for n in nodes(m, "Conv", "ConvInteger"):
+        ap = attr(n, "auto_pad", b"NOTSET")
+        ap = ap.decode() if isinstance(ap, bytes) else ap
+        if ap.startswith("SAME") and any(d > 1 for d in (attr(n, "dilations") or [])):
+            return True
+    return False
+
+
+def _conv_affine_scale_offset_rank(case):
+    """Conv(x, w, b) * s + o with s or o of rank >= 2 (size 1): the fused weight/bias change rank."""
+    m = M(case)
+    c = consts(m)
+    for n in nodes(m, "Mul", "Add"):
+        for x in n.input:
+            v = c.get(x)
+            if v is not None and v.size == 1 and v.ndim >= 2:
+                return True
+    return False
+
+
+def _autopad_and_pads_both(m):
+    for n in nodes(m, "Conv"):
+        ap = attr(n, "auto_pad", b"NOTSET")
+        ap = ap.decode() if isinstance(ap, bytes) else ap
+        if ap != "NOTSET" and attr(n, "pads") is not None:
+            return True
+    return False
+
+
+def _reshape_minus1_with_zero_dim(case):
+    sh = shapes(case)
+    for n in nodes(M(case), "Reshape"):
+        s = sh.get(n.output[0])
+        if s and 0 in s and sum(1 for d in s if not isinstance(d, int)) == 1:
+            return True
+    return False
+
+
+def _shape_with_end(m):
+    return any(attr(n, "end") is not None for n in nodes(m, "Shape"))
+
+
+BINOPS = ["Add", "And", "BitShift", "BitwiseAnd", "BitwiseOr", "BitwiseXor", "Div", "Equal", "Greater", "GreaterOrEqual", "Less", "LessOrEqual",
+          "Mod", "Mul", "Or", "Pow", "PRelu", "Sub", "Xor"]
+
+
+def _expand_rank_extending(case):
+    m = M(case)
+    sh = shapes(case)
+    prod = producers(m)
+    c = consts(m)
+    for n in nodes(m, *BINOPS):
+        for i, x in enumerate(n.input[:2]):
+            p = prod.get(x)
+            if p is not None and p.op_type == "Expand":
+                tgt = c.get(p.input[1])
+                tlen = len(tgt) if tgt is not None else (sh.get(p.input[1]) or [None])[0]
+                ra = len(sh.get(p.input[0]) or [])
+                other = n.input[1 - i] if len(n.input) > 1 else None
+                rb = len(sh.get(other) or []) if other else 0
+                if isinstance(tlen, int) and tlen > max(ra, rb):
+                    return True
+    return False
+
+
+def _expand_before_attr_op(m):
+    prod = producers(m)
+    for n in nodes(m, "BitShift", "Mod"):
+        if n.op_type == "Mod" and not attr(n, "fmod", 0):
+            continue
+        if any(prod.get(x) is not None and prod[x].op_type == "Expand" for x in n.input):
+            return True
+    return False
+
+
+def _prelu_data_operand_expanded(m):
+    prod = producers(m)
+    return any(n.input and prod.get(n.input[0]) is not None and prod[n.input[0]].op_type == "Expand" for n in nodes(m, "PRelu"))
+
+
+def _rule(case, *names):
+    return rule_of(case) in names
+
+
+C05_REGIONS = {
+    "rule_treats_initializer_input_as_constant": vanishes_with_default_initializers,
+    "noop_arith_constant_within_tolerance": lambda c: (_rule(c, "mul_by_1_rule") and _near_literal(M(c), "Mul", 1.0)) or (_rule(c, "div_by_1_rule") and _near_literal(M(c), "Div", 1.0))
+    or (_rule(c, "add_0_rule") and _near_literal(M(c), "Add", 0.0)) or (_rule(c, "sub_0_rule") and _near_literal(M(c), "Sub", 0.0)),
+    "minmax_clip_bounds_size1_not_rank0": lambda c: _rule(c, "min_max_rule", "max_min_rule") and _size1_rank_ge1_const_operand(M(c), ("Min", "Max")),
+    "clip_chain_disjoint_or_inverted": lambda c: _rule(c, "successive_clip_rule") and _clip_chain_order_matters(M(c)),
+    "clip_opset_lt11_attribute_form": lambda c: _rule(c, "successive_clip_rule", "successive_relu_clip_rule", "successive_clip_relu_rule") and _old_clip_attr_form(M(c)),
+    "cast_cos_to_bfloat16_before_opset20": lambda c: _rule(c, "cast_constant_of_shape_rule", "cast_constant_of_shape_without_value_rule") and (opset(M(c)) or 99) < 20
+    and any(to == 16 for to, _ in _cast_cos(M(c))),
+    "cast_cos_to_string": lambda c: _rule(c, "cast_constant_of_shape_rule", "cast_constant_of_shape_without_value_rule") and any(to == 8 for to, _ in _cast_cos(M(c))),
+    "cast_cos_integer_wraparound": lambda c: _rule(c, "cast_constant_of_shape_rule") and _cast_cos_int_wrap(M(c)),
+    "flatten_twin_same_input": lambda c: _rule(c, "flatten_to_reshape_rule") and _twin_flatten(M(c)),
+    "flatten_zero_size_dim": lambda c: _rule(c, "flatten_to_reshape_rule") and _flatten_zero_size(c),
+    "slice_split_before_opset18": lambda c: _rule(c, "slice_split_rule") and (opset(M(c)) or 99) < 18,
+    "slice_split_odd_last_dim": lambda c: _rule(c, "slice_split_rule") and _slice_last_dim_odd(c),
+    "matmul_add_addend_rank_or_broadcast": lambda c: _rule(c, "matmul_add_to_gemm_rule", "transpose_a_matmul_add_to_gemm_rule", "transpose_b_matmul_add_to_gemm_rule",
+                                                           "transpose_ab_matmul_add_to_gemm_rule") and _add_of_matmul_addend_not_gemm_compatible(c),
+    "gemm_to_matmul_add_trans_or_rank": lambda c: _rule(c, "gemm_to_matmul_add_rule") and _gemm_trans_or_rank(c),
+    "reshape_matmul_reshape_regroups_matrix_dims": lambda c: _rule(c, "one_reshape_matmul_reshape_rule", "two_reshapes_matmul_reshape_rule") and _reshape_feeding_matmul_changes_matrix_dims(c),
+    "bn_into_gemm_beta_or_mixed_types": lambda c: _rule(c, "fuse_batchnorm_into_gemm_rule") and _bn_gemm_beta_or_types(c),
+    "hardswish_opset_int_rank_or_float64": lambda c: _rule(c, "fuse_hardswish_rules") and _hardswish(c),
+    "pad_into_convinteger_nonzero_x_zero_point": lambda c: _rule(c, "fuse_pad_into_conv_integer_rule") and _convinteger_nonzero_x_zero_point(M(c)),
+    "normalize_pad_same_autopad_with_dilation": lambda c: _rule(c, "normalize_pad_format_conv_rule", "normalize_pad_format_conv_integer_rule") and _same_autopad_with_dilation(M(c)),
+    "conv_affine_scale_offset_rank_ge2": lambda c: _rule(c, "conv_affine_fusion_rule") and _conv_affine_scale_offset_rank(c),
+    "affine_conv_autopad_and_pads": lambda c: _rule(c, "affine_conv_fusion_rule") and _autopad_and_pads_both(M(c)),
+    "gemm_bias_removed_before_opset11": lambda c: _rule(c, "remove_optional_bias_from_gemm_rule") and (opset(M(c)) or 99) < 11,
+    "materialize_reshape_before_opset14": lambda c: _rule(c, "materialize_reshape_shape_rule") and (opset(M(c)) or 99) < 14,
+    "materialize_reshape_minus1_with_zero_dim": lambda c: _rule(c, "materialize_reshape_shape_rule") and _reshape_minus1_with_zero_dim(c),
+    "dynamic_scatter_shape_with_end": lambda c: _rule(c, "no_op_dynamic_scatter_nd_rule") and _shape_with_end(M(c)),
+    "expand_binop_rank_extending": lambda c: _rule(c, "expand_before_binary_op_rules") and _expand_rank_extending(c),
+    "expand_binop_prelu_data_operand": lambda c: _rule(c, "expand_before_binary_op_rules") and _prelu_data_operand_expanded(M(c)),
+    "expand_binop_attribute_dropped": lambda c: _rule(c, "expand_before_binary_op_rules") and _expand_before_attr_op(M(c)),
+}
+
+
+# ----------------------------------------------------------------------------- pipeline-level reduction (C03 / C04 / C09)
+@functools.lru_cache(maxsize=1)
+def _known_c05():
+    p = os.path.join(HOME, "known_findings.json")
+    if not os.path.exists(p):
+        return []
+    return [e for e in json.load(open(p)).get("findings", []) if "C05" in e.get("properties", [e.get("property")]) and e.get("status") == "known"]
+
+
+def reduces_to_known_rule_finding(case):
+    """Some single rewrite-rule unit of the default set, applied alone to the same model and inputs, reproduces a violation
+    that is itself attributed to a recorded C05 finding (and no unit produces an unattributed violation)."""
+    from vf import optcommon
+    from vf.props import C05
+
+    m = M(case)
+    feeds = [optcommon.feeds_from_json(f) for f in case.get("feeds", [])]
+    if not feeds and "binding" in case:
+        from vf import modelgen
+
+        gm = modelgen.GenModel(m, {}, [tuple(x) for x in case["input_specs"]], [], [], 0, 0, {}, case["declared"])
+        b = {(tuple(k) if isinstance(k, list) else k): v for k, v in case["binding"]}
+        feeds = [gm.feeds_for_binding(b, case.get("seed", 0))]
+    known = _known_c05()
+    hit = False
+    for unit in sorted(C05.rule_units()):
+        if unit.startswith("fusion."):
+            continue
+        verdicts, info = C05.check(m, unit, feeds)
+        if not info.get("fired") and not verdicts:
+            continue
+        for bucket, _ in verdicts:
+            sub = {"rule": unit, "model": case["model"], "feeds": case.get("feeds", [optcommon.feeds_to_json(f) for f in feeds]), "commute": False}
+            ok = False
+            for e in known:
+                pred = C05_REGIONS.get(e.get("region"))
+                if pred is not None and re.fullmatch(e["bucket"], bucket):
+                    try:
+                        if pred(sub):
+                            ok = True
+                            break
+                    except Exception:  # noqa: BLE001
+                        pass
+            if ok:
+                hit = True
+            else:
+                return False  # a rule misbehaves here in a way no recorded finding covers
+    return hit
+
+
+REGIONS = dict(C05_REGIONS)
+REGIONS["reduces_to_known_rule_finding"] = reduces_to_known_rule_finding
